@@ -19,7 +19,7 @@ CLAIMS = {
         "text": "Bounded symbolic model checking of the real Node power code through the request API: (a) every "
         "sequence of n operations from the real initial state and (b) one operation from every pre-state of a written "
         "representation invariant followed by ticks until the node settles, with start-up/shut-down durations as "
-        "solver variables, compared step by step with a reference state machine; the operations include, besides requests, ticks and pings in both directions, the software's and interfaces' own API (Service.start, Application.run, NIC.enable called directly), which must do nothing on a node that is not ON; the path tree is exhausted.",
+        "solver variables, compared step by step with a reference state machine; the operations include, besides requests, ticks and pings in both directions, the software's and interfaces' own API (Service.start, Application.run, NIC.enable called directly), which must do nothing on a node that is not ON; file-system work pending when the node goes down (a timed folder scan) does not advance while it stays down; the path tree is exhausted.",
         "note": "Bounds: durations 0..dmax, n_ops as in evidence.bounds; node types per tier. Trusted: CrossHair/z3, "
         "the logging stubs and format shim, the invariant used by the inductive harness (cross-checked by the bounded "
         "runs from the real initial state), the reference FSM.",
@@ -57,7 +57,7 @@ CLAIMS = {
         "by PrimaiteGame.from_config, unmodified / misspelt at a depth / truncated, under every node power state and "
         "every service/application operating state: a request that does not reach its handler answers unreachable/"
         "failure and leaves Simulation.describe_state() bit-identical and sends no frame; (actions) every entry of a "
-        "generated action map is never 'unreachable' when its components exist, never reaches a handler when they do not; with a file or a whole folder deleted earlier in the episode, every request and action that still addresses it (other than restoring exactly it, or creation) is not answered success and changes nothing; (service gate) terminal requests of a node whose own terminal is in any non-RUNNING service state, after a history of successful requests, are not answered success and never reach the target.",
+        "generated action map is never 'unreachable' when its components exist, never reaches a handler when they do not; with a file or a whole folder deleted earlier in the episode, every request and action that still addresses it (other than restoring exactly it, or creation) is not answered success and changes nothing; (service gate) terminal requests of a node whose own terminal is in any non-RUNNING service state, after a history of successful requests, are not answered success and never reach the target; (run-time routes) after an application was installed and uninstalled through the request API the node's request tree is what it was before, and every path that existed only in between is answered unreachable and changes nothing; the same live-tree sweep on a firewall and on a wireless router.",
         "note": "Bounds: one host of a 4-node (quick) / two topologies (thorough) scenario; leaves with structured "
         "payload arguments (user/session/terminal/nmap/ACL requests) are exercised through the action map only. Trusted: "
         "CrossHair/z3, describe_state() as the state observation, the leaf-wrapping recorder.",
@@ -67,7 +67,7 @@ CLAIMS = {
         "text": "Bounded symbolic model checking of mask-vs-execution on the real game: for every entry of a generated "
         "action map (all maskable host action types x components, actions naming missing components, router ACL/port "
         "actions) and every pre-state in {4 node power states} x {service states incl. RESTARTING} x {application "
-        "states incl. INSTALLING} x {NIC flag} x {file live / file deleted / folder deleted}, PrimaiteGame.action_mask "
+        "states incl. INSTALLING} x {NIC flag} x {file live / file deleted / folder deleted / folder deleted and restored through the requests with the file deleted afterwards}, PrimaiteGame.action_mask "
         "(and PrimaiteGymEnv.action_masks) equals 'executing the request now reaches its handler', a masked-out action "
         "never succeeds and an allowed one is never refused by a permission rule.",
         "note": "Bounds: the generated scenarios and action map (54/66 entries); quick couples service/application states "
@@ -123,7 +123,7 @@ CLAIMS = {
         "integer (every receiving interface and routing hop lowers it, nothing is handed on with TTL < 1, large TTL is "
         "delivered); ping between every ordered host pair under a solver-chosen toggle (interface down, node off, "
         "ACL deny, switch off) agrees with an independent reachability model and is never handed to a third host's "
-        "software; an interface hands a frame to its node only if it is addressed to it; on a LAN with two routers every unicast frame a host emits for an off-subnet address is addressed to its configured default gateway in every ARP-cache state (0-2 warm-up rounds, either side first), so an exchange the gateway refuses does not complete; the same reachability comparison on a generated firewall-with-DMZ scenario (12 ordered pairs, 13 toggles incl. ICMP denied in each of the six lists) and on the shipped wireless-WAN scenario (two wireless routers; access point down, router off, different frequencies, ACL deny).",
+        "software; an interface hands a frame to its node only if it is addressed to it; on a LAN with two routers every unicast frame a host emits for an off-subnet address is addressed to its configured default gateway in every ARP-cache state (0-2 warm-up rounds, either side first), so an exchange the gateway refuses does not complete; the same reachability comparison on a generated firewall-with-DMZ scenario (12 ordered pairs, 13 toggles incl. ICMP denied in each of the six lists) and on the shipped wireless-WAN scenario (two wireless routers; access point down, router off, different frequencies, ACL deny); route tables declared in a scenario (Router.from_config) with fractional, equal and near-equal metrics in either order select the route of lowest declared metric.",
         "note": "Bounds: N=3 (quick) / 4 (thorough) routes; non-contiguous masks excluded (stdlib raises); TTL -1..70; "
         "3 hosts, 9 toggles, cold/warm ARP. Termination is argued from the TTL measure (strictly decreasing, checked), "
         "not run.  Trusted: CrossHair/z3, the ipaddress BV model (validated "
@@ -193,7 +193,7 @@ CLAIMS = {
         "member in the thorough tier) and re-establishes it; exhaustive runs of 2 (quick) to 4 (thorough) operations "
         "from the real initial states. Checked after every operation: live/deleted partition by object identity, "
         "deleted flags, live-name uniqueness, request routes, reported state, per-tick counters, unavailability of "
-        "deleted items, creating an existing name refused or a no-op and never raising.",
+        "deleted items, creating an existing name refused or a no-op and never raising; the per-tick counters start every tick at zero also on a node that was shut down in the tick in which files were created / deleted / accessed.",
         "note": "File and folder names are concrete representatives (the code only compares names with ==); copy_file / "
         "move_file have no request route and are not covered; node ON throughout. Trusted: CrossHair/z3, the invariant.",
         "technique": TECH_S,
